@@ -506,6 +506,14 @@ def run_impl(c):
                 # the other entry point and the flag must not change the matrix
                 o["plain"] = np.asarray(T.rodrigues_vector_to_rotation_matrix(arr)).reshape(-1).tolist()
                 o["via_cv2"] = np.asarray(T.cv2_rodrigues(arr)).reshape(-1).tolist()
+            # results must be fresh arrays: overwrite everything a call returned, then ask again
+            res = _fn(c["fn"])(before.copy(), c["jac"])
+            for a in (res if c["jac"] else (res,)):
+                if isinstance(a, np.ndarray) and a.flags.writeable:
+                    a[...] = 7.0
+            again = _pack(_fn(c["fn"])(before.copy(), c["jac"]), c["jac"])
+            o["fresh"] = bool(np.array_equal(np.array(again["vals"]), np.array(o["vals"]), equal_nan=True)
+                              and np.array_equal(np.array(again["jvals"]), np.array(o["jvals"]), equal_nan=True))
         return o
 
     return call_impl(go)
@@ -553,6 +561,8 @@ def oracle(c, o):
         return None
     if not (accepts_vec or accepts_mat):
         return "shape %r was accepted by %s (ValueError demanded)" % (c["shape"], c["fn"])
+    if o.get("fresh") is False:
+        return "a later call returns a different result after the caller overwrote an earlier result in place (results share state)"
     if not o["args_unchanged"]:
         return "argument array was modified"
     if accepts_vec:
